@@ -138,7 +138,7 @@ def gen_case(rng, idx, quick):
 
 
 CORPUS = [
-    # D8 witness: the simplest integer-interval run (before fix e0eac6a its saved configuration was refused)
+    # D8 witness: the simplest integer-interval run (before fix e44909e its saved configuration was refused)
     {"idx": -1, "seed": 11, "rows": 8, "cols": 12, "bands": None, "georef": False, "mask": False, "nodata": None,
      "interval": "list", "disp": [-2, 2],
      "pipeline": {"matching_cost": {"matching_cost_method": "sad", "window_size": 3},
@@ -739,7 +739,7 @@ def json_stream(ctx, model, n):
 
 
 def d8_regression(ctx, model):
-    """the regression witness of D8 on the model of the code BEFORE fix e0eac6a: the configuration main used to save
+    """the regression witness of D8 on the model of the code BEFORE fix e44909e: the configuration main used to save
     is refused by the (unchanged) input check"""
     user = {"input": {"left": {"img": "/x/left.tif", "disp": [-2, 2]}, "right": {"img": "/x/right.tif"}},
             "pipeline": {"matching_cost": {"matching_cost_method": "sad"}, "disparity": {"disparity_method": "wta"}}}
@@ -763,7 +763,7 @@ def run(ctx):
         run_case(ctx, model, replay)
         return
     d8_regression(ctx, model)
-    json_stream(ctx, model, 120 if quick else 3000)
+    json_stream(ctx, model, 120 if quick else 1500)
     for case in CORPUS:
         run_case(ctx, model, copy.deepcopy(case))
     n = 26 if quick else 220
